@@ -30,12 +30,11 @@ def mc_runs(ctx, which):
     # C06 also checks, on every transition of the bound model, that it is a step of the counter abstraction
     # ConnCaps.tla (whose invariant Apalache proves inductive) and that the inductive invariant holds
     # (the action property roughly triples TLC's time per state: the quick tier checks it on the two-transport
-    # configurations and on a dedicated MaxCid=2 run over every limit set, the thorough tier on every run)
+    # configurations and on two dedicated MaxCid=2 runs, the thorough tier on every run)
     extra = ["INVARIANT CapsInd", "PROPERTY CapsRefinement"] if which == "C06" else []
     if which == "C06" and ctx.quick():
         runs = runs + [("caps-ref-small", dict(BASE, Limits="<- LimSmall", MaxCid=2, AddrsOf="<- AddrsDef")),
-                       ("caps-ref-mixed", dict(BASE, Limits="<- LimMixed", MaxCid=2)),
-                       ("caps-ref-in3", dict(BASE, Limits="<- LimIn3", MaxCid=3))]
+                       ("caps-ref-mixed", dict(BASE, Limits="<- LimMixed", MaxCid=2))]
     for name, consts in runs:
         ex = extra if (not ctx.quick() or name.startswith(("caps-ref", "two2"))) else []
         r = tlc_mc(ctx, "ConnMgrMC.tla", write_cfg(ctx, "mc_%s.cfg" % name, consts, ["SPECIFICATION Spec"] + MC_INV + ex),
